@@ -43,7 +43,8 @@ type plan struct {
 	fl       flavour
 	failIdx  int  // message index of the first stream at which the transport fails (0 = the ready message)
 	lost     bool // the message at failIdx left the server but was lost in transit (else: fails before it)
-	repeat   int  // how many consecutive re-established streams fail again at their message 1
+	repeat   int  // how many consecutive re-established streams fail again
+	repeatAt int  // ... before their message repeatAt (0 = 1: before the first event message; 2: after the first event message - which batches everything written during the outage - was received)
 	estFail  int  // how many re-establishment attempts fail (Unavailable) per outage
 	outageW  int  // writes landing during the outage
 	noRetry  bool
@@ -58,6 +59,9 @@ func (p plan) String() string {
 		mode = "lost"
 	}
 	s := fmt.Sprintf("%s/fail@%d-%s/repeat%d/estfail%d/outage-writes%d", fNames[p.fl], p.failIdx, mode, p.repeat, p.estFail, p.outageW)
+	if p.repeatAt > 1 {
+		s += fmt.Sprintf("/repeat-at%d", p.repeatAt)
+	}
 	if p.noRetry {
 		s += "/noretry"
 	}
@@ -95,8 +99,12 @@ func (f *faults) fail(n, idx int, lost bool) error {
 	if n == 0 {
 		hit = idx == f.p.failIdx && lost == f.p.lost
 	} else if n-f.skipped() <= f.p.repeat {
-		// re-established streams: fail again at their first event message (before it arrives)
-		hit = idx == 1 && !lost && f.repeatLeft() > 0
+		// re-established streams: fail again before their message repeatAt arrives
+		at := f.p.repeatAt
+		if at == 0 {
+			at = 1
+		}
+		hit = idx == at && !lost && f.repeatLeft() > 0
 	}
 	if !hit {
 		return nil
@@ -398,6 +406,9 @@ func detScenario(fl flavour) explore.Scenario {
 						for est := 0; est <= 2; est++ {
 							for w := 0; w <= 2; w++ {
 								run(plan{fl: fl, failIdx: idx, lost: lost, repeat: rep, estFail: est, outageW: w})
+								if rep > 0 {
+									run(plan{fl: fl, failIdx: idx, lost: lost, repeat: rep, repeatAt: 2, estFail: est, outageW: w})
+								}
 							}
 						}
 					}
